@@ -162,6 +162,15 @@ func (r *yieldRewriter) rewriteStmts(
 		if children.kind == kindDelay {
 			r.generateLastNormalIfNecessary(children)
 		}
+		// the last stmt may have switched to another callback body
+		// (yield in for-init / switch-init), which must end with a return too
+		if following != children && following.kind == kindDelay {
+			r.generateLastNormalIfNecessary(following)
+		}
+		// a loop body ending with a yielding switch: not every clause returns
+		if following.kind == kindFor && following.len() > 0 && following.lastKind() == kindSwitch {
+			r.generateLastNormalIfNecessary(following)
+		}
 	} else {
 		following = r.combineIfNecessary(following)
 		r.rewriteStmts(stmts, idx+1, following)
